@@ -215,13 +215,25 @@ theorem nullOps_honest (cfg : Cfg) (o : Oracle) (s1 : State Unit) (i : Nat) : Ca
 example (cfg : Cfg) (o : Oracle) : ∀ (s1 : State Unit) (i : Nat), WF s1 → CapHonest cfg nullOps o s1 i :=
   fun s1 i _ => nullOps_honest cfg o s1 i
 
-/-- an honest pass that enforces the capacity (hypotheses of `capacity_pass_enforces_partial`):
-    two resident entries of cost 3, both known to the LRU policy, capacity 5 -/
-def honestRun : State Lru.State :=
-  (run cfgLru5 lruOps Lru.init (State.fresh cfgLru5 Lru.init 0)
-    [(.insert false 2 102 3, {}), (.insert false 3 103 3, {}), (.runMaintenance, {})]).1
+/-- a state that satisfies every hypothesis of `capacity_pass_enforces_partial`: two resident
+    entries of cost 3, both known to the LRU policy with their exact cost (the write events have been
+    drained), capacity 5 -/
+def capDemo : State Lru.State :=
+  ((run cfgLru5 lruOps Lru.init (State.fresh cfgLru5 Lru.init 0)
+    [(.insert false 2 102 3, {}), (.insert false 3 103 3, {})]).1).performShard cfgLru5 lruOps o0 0 16
 
-example : honestRun.met.currentCost = 3 ∧ residentCost honestRun = 3 := by decide
+example : WF capDemo ∧ Fv.Cache.Acc capDemo ∧ costSum capDemo < U64 ∧ CapHonest cfgLru5 lruOps o0 capDemo 0 ∧
+    capDemo.met.currentCost - cfgLru5.capacity ≤
+      (capDemo.polEvict lruOps 0 (capDemo.met.currentCost - cfgLru5.capacity) (o0.evictHint.getD 0 [])).2.2 ∧
+    (capDemo.polEvict lruOps 0 (capDemo.met.currentCost - cfgLru5.capacity) (o0.evictHint.getD 0 [])).2.2 ≤
+      capDemo.met.currentCost := by
+  refine ⟨⟨by decide, fun sn h => ?_⟩, by unfold Fv.Cache.Acc; decide, by decide, by unfold CapHonest; decide, by decide, by decide⟩
+  have : capDemo.snap = none := by decide
+  rw [this] at h; cases h
+
+/-- … and the pass does bring it back under the capacity -/
+example : (capDemo.cleanupCapacity cfgLru5 lruOps o0 0).met.currentCost = 3 ∧
+    residentCost (capDemo.cleanupCapacity cfgLru5 lruOps o0 0) = 3 := by decide
 
 /-! ### witnesses: the full statements are false on the model (as on the code) -/
 
@@ -245,6 +257,37 @@ def f8aRun : State Lru.State × List Ret :=
 
 theorem C13_fails_F8a :
     residentCost f8aRun.1 = 6 ∧ f8aRun.1.met.currentCost = 6 ∧ cfgLru5.capacity = 5 ∧
-      cfgLru5.drainLimit = 16 ∧ cfgLru5.mcAlways = false := by decide +kernel
+      cfgLru5.drainLimit = 16 ∧ cfgLru5.mcAlways = false := by decide
+
+/-- F8b, the general fact (any `eventCap`, in particular the real 512): `try_send` on a full
+    write-event buffer changes nothing — the event is dropped, so the entry `insertCore` has just
+    put into the map stays resident and no policy will ever be told about it. -/
+theorem C13_F8b_pushEvent_full_drops (cfg : Cfg) (s : State P) (k c : Nat) (a : Aux P)
+    (ha : s.aux[cfg.shardOf k]? = some a) (hfull : cfg.eventCap ≤ a.events.length) :
+    (s.pushEvent cfg k c).aux = s.aux ∧ (s.pushEvent cfg k c).map = s.map :=
+  ⟨pushEvent_full cfg s k c a ha hfull, rfl⟩
+
+/-- F8b is stated on a scaled-down configuration (kernel evaluation of 530 inserts is too slow):
+    buffer of 8 events, 4 drained per call, capacity 2 — the code path is the same for 512 / 16 -/
+def cfgF8b : Cfg := { capacity := 2, trackReads := true, eventCap := 8, drainLimit := 4 }
+
+/-- 12 unit-cost inserts without maintenance (the buffer keeps 8 events and drops 4), then `n`
+    `run_maintenance` calls -/
+def f8bRun (n : Nat) : State Lru.State × List Ret :=
+  run cfgF8b lruOps Lru.init (State.fresh cfgF8b Lru.init 0)
+    ((Op.multiInsert ((List.range 12).map (fun k => (k, 100 + k, 1))), o0) :: List.replicate n (Op.runMaintenance, o0))
+
+/-- F8b: after the buffer overflowed, two `run_maintenance` calls drain it completely and evict
+    every key the policy knows; the four entries whose events were dropped stay resident in a cache
+    of capacity 2, and further `run_maintenance` calls change nothing (`current_cost` is exact: 4). -/
+theorem C13_fails_F8b :
+    (f8bRun 0).1.aux.map (·.events.length) = [8] ∧ residentCost (f8bRun 0).1 = 12 ∧
+    (f8bRun 2).1.aux.map (·.events.length) = [0] ∧ residentCost (f8bRun 2).1 = 4 ∧
+    residentCost (f8bRun 4).1 = 4 ∧ (f8bRun 4).1.met.currentCost = 4 ∧
+    (f8bRun 4).1.map = (f8bRun 2).1.map ∧ cfgF8b.capacity = 2 := by decide
+
+/-- the hypotheses of `C13_F8b_pushEvent_full_drops` hold in that run -/
+example : ∃ a, (f8bRun 0).1.aux[cfgF8b.shardOf 12]? = some a ∧ cfgF8b.eventCap ≤ a.events.length := by
+  refine ⟨_, rfl, ?_⟩; decide
 
 end Fv.Props.C13
